@@ -2,3 +2,10 @@ import Lean
 /-- Rewriting set that turns the masked integer expressions of the device code into linear
 arithmetic with `/`, `%`, `min`, `max` by literals (then `omega`). -/
 register_simp_attr pyarith
+
+/-- Rewriting set for the status-register idioms of the device code: `p & ~MASK`, `p | FLAG`,
+`p | (v & FLAG)` become `Spec.setFlag`/`Spec.flag` chains in a canonical order. -/
+register_simp_attr flagalg
+
+/-- Configuration constants and evaluation of ground `Py.land/lor/lxor/lnot` terms. -/
+register_simp_attr pyconst
